@@ -2,9 +2,109 @@
 
 Values are read from the imported package (or from a probe object whose 12 edge data are
 distinguishable labels); nothing is computed here.
+
+Round 6b: the two tables the *model* names (`c07EdgeDir`, `c07Tol`: plain values) come first; every other group runs
+inside its own `emit.guard`.  The pinned statement outline (`c07SourceTests`) is printed from a normalised tree: comments,
+docstrings, blank lines, type annotations and print / report / warn statements are not seen, every parameter (other than
+`self`) and every local is renamed `v0, v1, …` in order of first appearance, literals are printed by `ast.unparse`.
 """
 
 from __future__ import annotations
+
+import ast
+import inspect
+import textwrap
+from typing import List
+
+
+def normalised(obj) -> ast.FunctionDef:
+    """the function's tree with parameters / locals renamed v0, v1, … and annotations, docstrings, reports removed"""
+    fn = ast.parse(textwrap.dedent(inspect.getsource(obj))).body[0]
+    assert isinstance(fn, ast.FunctionDef)
+    order: List[str] = [a.arg for a in fn.args.args + fn.args.kwonlyargs if a.arg != "self"]
+
+    class Collect(ast.NodeVisitor):
+        def visit_Name(self, node):
+            if isinstance(node.ctx, ast.Store) and node.id not in order:
+                order.append(node.id)
+
+        def visit_ExceptHandler(self, node):
+            if node.name and node.name not in order:
+                order.append(node.name)
+            self.generic_visit(node)
+
+    Collect().visit(fn)
+    new = {n: f"v{i}" for i, n in enumerate(order)}
+
+    def is_report(st):
+        if isinstance(st, ast.Expr) and isinstance(st.value, ast.Constant):
+            return True
+        if isinstance(st, ast.Expr) and isinstance(st.value, ast.Call):
+            f = st.value.func
+            return (f.id if isinstance(f, ast.Name) else getattr(f, "attr", "")) in ("print", "report", "warn")
+        return False
+
+    class Rewrite(ast.NodeTransformer):
+        def visit_Name(self, node):
+            return ast.copy_location(ast.Name(id=new.get(node.id, node.id), ctx=node.ctx), node)
+
+        def visit_arg(self, node):
+            return ast.arg(arg=new.get(node.arg, node.arg), annotation=None)
+
+        def visit_ExceptHandler(self, node):
+            self.generic_visit(node)
+            node.name = new.get(node.name, node.name) if node.name else None
+            return node
+
+        def visit_AnnAssign(self, node):
+            self.generic_visit(node)
+            if node.value is None:
+                return None
+            return ast.copy_location(ast.Assign(targets=[node.target], value=node.value), node)
+
+        def generic_visit(self, node):
+            super().generic_visit(node)
+            for field in ("body", "orelse", "finalbody"):
+                stmts = getattr(node, field, None)
+                if isinstance(stmts, list) and stmts and isinstance(stmts[0], ast.stmt):
+                    kept = [st for st in stmts if not is_report(st)]
+                    setattr(node, field, kept or ([ast.Pass()] if field == "body" else []))
+            return node
+
+    fn.returns = None
+    fn = Rewrite().visit(fn)
+    return ast.fix_missing_locations(fn)
+
+
+def outline(node) -> List[str]:
+    """one line per statement of a (normalised) body: tests in order, comparison operators, what is returned / raised"""
+
+    def ret(st):
+        return "return " + ast.unparse(st.value)
+
+    out = []
+    for st in node.body:
+        if isinstance(st, ast.If):
+            body = st.body
+            out.append("if " + ast.unparse(st.test) + ": " + "; ".join(ret(b) if isinstance(b, ast.Return) else ast.unparse(b) for b in body))
+        elif isinstance(st, ast.Return):
+            out.append(ret(st))
+        elif isinstance(st, ast.For):
+            out.append("for " + ast.unparse(st.target) + " in " + ast.unparse(st.iter))
+            out += outline(st)
+        elif isinstance(st, ast.Raise):
+            out.append("raise " + (st.exc.func.id if isinstance(st.exc, ast.Call) else ast.unparse(st.exc)))
+        elif isinstance(st, ast.Try):
+            out.append("try: " + "; ".join(ast.unparse(b) for b in st.body))
+            for h in st.handlers:
+                hb = [b for b in h.body if not isinstance(b, ast.If)]
+                out.append("except " + ast.unparse(h.type) + ": " + "; ".join(ast.unparse(b) for b in hb))
+                for b in h.body:
+                    if isinstance(b, ast.If):
+                        out.append("if " + ast.unparse(b.test) + ": " + "; ".join(ast.unparse(x) for x in b.body))
+        else:
+            out.append(ast.unparse(st))
+    return out
 
 
 def emit_all(emit) -> None:
@@ -16,6 +116,7 @@ def emit_all(emit) -> None:
     from classy_blocks.util import constants
     from classy_blocks.util.tools import edge_map
 
+    # ---------------------------------------------------------------- value tables the model names
     # the directed corner pair every ordered pair of edge_map stands for
     dirs = []
     for c1 in range(8):
@@ -28,92 +129,66 @@ def emit_all(emit) -> None:
         dirs,
         "tools.edge_map[c1][c2] -> (loc.corner_1, loc.corner_2): the directed pair edge data is specified for",
     )
-
-    # Operation.edges + Frame.get_all_beams on a probe operation: slot s = bottom 0-3, top 4-7, side 8-11
-    hexa = [[0, 0, 0], [1, 0, 0], [1, 1, 0], [0, 1, 0], [0, 0, 1], [1, 0, 1], [1, 1, 1], [0, 1, 1]]
-    bottom = cb.Face(hexa[:4], [cb.Project(f"s{i}") for i in range(4)])
-    top = cb.Face(hexa[4:], [cb.Project(f"s{i + 4}") for i in range(4)])
-    op = cb.Loft(bottom, top)
-    for i in range(4):
-        op.add_side_edge(i, cb.Project(f"s{i + 8}"))
-    beams = [(int(a), int(b), int(d.label[0][1:])) for a, b, d in op.edges.get_all_beams()]
-    emit(
-        "c07OpBeams",
-        "List (Nat × Nat × Nat)",
-        beams,
-        "Operation.edges.get_all_beams() of a probe operation: (corner_1, corner_2, slot) with slot = bottom 0-3, top 4-7, side 8-11",
-    )
-
     tol = Fraction(constants.TOL).limit_denominator(10**12)
     emit("c07Tol", "Nat × Nat", (tol.numerator, tol.denominator), "constants.TOL as a fraction")
 
-    emit(
-        "c07Kinds",
-        "List (String × String)",
-        [(k, v.__name__) for k, v in factory.kinds.items()],
-        "edge kinds registered with items.edges.factory -> Edge class",
-    )
+    # ---------------------------------------------------------------- probes and tie-only tables, each on its own
+    def op_beams() -> None:
+        # Operation.edges + Frame.get_all_beams on a probe operation: slot s = bottom 0-3, top 4-7, side 8-11
+        hexa = [[0, 0, 0], [1, 0, 0], [1, 1, 0], [0, 1, 0], [0, 0, 1], [1, 0, 1], [1, 1, 1], [0, 1, 1]]
+        bottom = cb.Face(hexa[:4], [cb.Project(f"s{i}") for i in range(4)])
+        top = cb.Face(hexa[4:], [cb.Project(f"s{i + 4}") for i in range(4)])
+        op = cb.Loft(bottom, top)
+        for i in range(4):
+            op.add_side_edge(i, cb.Project(f"s{i + 8}"))
+        beams = [(int(a), int(b), int(d.label[0][1:])) for a, b, d in op.edges.get_all_beams()]
+        emit(
+            "c07OpBeams",
+            "List (Nat × Nat × Nat)",
+            beams,
+            "Operation.edges.get_all_beams() of a probe operation: (corner_1, corner_2, slot) with slot = bottom 0-3, top 4-7, side 8-11",
+        )
 
-    # which EdgeData classes override the reverse() hook (direction-dependent data)
-    classes = [E.Line, E.Arc, E.Origin, E.Angle, E.Project, E.OnCurve, E.Spline, E.PolyLine]
-    base = getattr(E.EdgeData, "reverse", None)
-    emit(
-        "c07Reversing",
-        "List String",
-        [c.kind for c in classes if getattr(c, "reverse", None) is not base],
-        "kinds of construct.edges whose class overrides EdgeData.reverse()",
-    )
+    emit.guard(op_beams)
 
-    # the validity tests and the find / add logic as written (ast of the current source, comments and docstrings dropped)
-    import ast
-    import inspect
-    import textwrap
+    def kinds() -> None:
+        emit(
+            "c07Kinds",
+            "List (String × String)",
+            [(k, v.__name__) for k, v in factory.kinds.items()],
+            "edge kinds registered with items.edges.factory -> Edge class",
+        )
 
-    from classy_blocks.items.edges.arcs.arc_base import ArcEdgeBase
-    from classy_blocks.items.edges.edge import Edge
-    from classy_blocks.lists.edge_list import EdgeList
+    emit.guard(kinds)
 
-    def fn(obj):
-        return ast.parse(textwrap.dedent(inspect.getsource(obj))).body[0]
+    def reversing() -> None:
+        # which EdgeData classes override the reverse() hook (direction-dependent data)
+        classes = [E.Line, E.Arc, E.Origin, E.Angle, E.Project, E.OnCurve, E.Spline, E.PolyLine]
+        base = getattr(E.EdgeData, "reverse", None)
+        emit(
+            "c07Reversing",
+            "List String",
+            [c.kind for c in classes if getattr(c, "reverse", None) is not base],
+            "kinds of construct.edges whose class overrides EdgeData.reverse()",
+        )
 
-    def ret(st):
-        return "return " + ast.unparse(st.value)
+    emit.guard(reversing)
 
-    def lines(node):
-        out = []
-        for st in node.body:
-            if isinstance(st, ast.Expr) and isinstance(st.value, ast.Constant):
-                continue  # docstring
-            if isinstance(st, ast.If):
-                body = [b for b in st.body if not isinstance(b, ast.Assign)]
-                out.append("if " + ast.unparse(st.test) + ": " + "; ".join(ret(b) if isinstance(b, ast.Return) else ast.unparse(b) for b in body))
-            elif isinstance(st, ast.Return):
-                out.append(ret(st))
-            elif isinstance(st, ast.For):
-                out.append("for " + ast.unparse(st.target) + " in " + ast.unparse(st.iter))
-                out += lines(st)
-            elif isinstance(st, ast.Raise):
-                out.append("raise " + (st.exc.func.id if isinstance(st.exc, ast.Call) else ast.unparse(st.exc)))
-            elif isinstance(st, ast.Try):
-                out.append("try: " + "; ".join(ast.unparse(b) for b in st.body))
-                for h in st.handlers:
-                    hb = [b for b in h.body if not isinstance(b, ast.If)]
-                    out.append("except " + ast.unparse(h.type) + ": " + "; ".join(ast.unparse(b) for b in hb))
-                    for b in h.body:
-                        if isinstance(b, ast.If):
-                            out.append("if " + ast.unparse(b.test) + ": " + "; ".join(ast.unparse(x) for x in b.body))
-            else:
-                out.append(ast.unparse(st))
-        return out
+    def source_tests() -> None:
+        from classy_blocks.items.edges.arcs.arc_base import ArcEdgeBase
+        from classy_blocks.items.edges.edge import Edge
+        from classy_blocks.lists.edge_list import EdgeList
 
-    emit(
-        "c07SourceTests",
-        "List (String × List String)",
-        [
-            ("Edge.is_valid", lines(fn(Edge.is_valid.fget))),
-            ("ArcEdgeBase.is_valid", lines(fn(ArcEdgeBase.is_valid.fget))),
-            ("EdgeList.find", lines(fn(EdgeList.find))),
-            ("EdgeList.add", lines(fn(EdgeList.add))),
-        ],
-        "the statements of the validity tests and of EdgeList.find / add, unparsed from the current source",
-    )
+        emit(
+            "c07SourceTests",
+            "List (String × List String)",
+            [
+                ("Edge.is_valid", outline(normalised(Edge.is_valid.fget))),
+                ("ArcEdgeBase.is_valid", outline(normalised(ArcEdgeBase.is_valid.fget))),
+                ("EdgeList.find", outline(normalised(EdgeList.find))),
+                ("EdgeList.add", outline(normalised(EdgeList.add))),
+            ],
+            "the statements of the validity tests and of EdgeList.find / add, from the normalised tree of the current source",
+        )
+
+    emit.guard(source_tests)
